@@ -292,6 +292,34 @@ namespace
             release_world(a); release_world(b);
           }
       }
+    else if (idx == 2)
+      {
+        // a world without a cross section refuses 2-D queries with an exception: the wrappers must not turn the refusal into a normal return
+        worlds::Opt o; o.cross_section = false;
+        const std::string file = write_world_file(worlds::rich(o), "c16nosection");
+        World native(file, false, "", 1);
+        bool native_throws = false;
+        try { (void)native.temperature(std::array<double,2>{{1e5, CART_TOP - 3e4}}, 3e4); } catch (const std::exception &) { native_throws = true; }
+        if (!native_throws) { ctx.violation("harness/C16-native-world-answers-2d-without-cross-section", JObj().str("world", file).done()); return; }
+        void *cw = nullptr;
+        create_world(&cw, file.c_str(), nullptr, nullptr, 1);
+        wrapper_cpp::WorldBuilderWrapper cpp(file, false, "", 1);
+        auto must_throw = [&](const std::string &who, const std::function<void()> &f)
+        {
+          ctx.eval();
+          bool threw = false;
+          try { f(); } catch (const std::exception &) { threw = true; }
+          if (!threw) ctx.violation("C16/refusal-not-passed-on/" + who, JObj().str("what", "the native World refuses a 2-D query on a world without a cross section with an exception; the wrapper returned normally").str("entry_point", who).str("world", file).done());
+        };
+        double v = 0; double vals[16];
+        unsigned raw[2][3] = {{1,0,0},{4,0,0}};
+        must_throw("temperature_2d", [&]() { temperature_2d(cw, 1e5, CART_TOP - 3e4, 3e4, &v); });
+        must_throw("composition_2d", [&]() { composition_2d(cw, 1e5, CART_TOP - 3e4, 3e4, 0, &v); });
+        must_throw("properties_2d", [&]() { properties_2d(cw, 1e5, CART_TOP - 3e4, 3e4, raw, 2, vals); });
+        must_throw("cpp.temperature_2d", [&]() { (void)cpp.temperature_2d(1e5, CART_TOP - 3e4, 3e4); });
+        must_throw("cpp.composition_2d", [&]() { (void)cpp.composition_2d(1e5, CART_TOP - 3e4, 3e4, 0); });
+        release_world(cw);
+      }
     else
       {
         const std::string dir = G().rundir + "/rewrite" + std::to_string(G().shard_id);
@@ -362,8 +390,8 @@ int main(int argc, char **argv)
   {
     const bool th = tier == "thorough";
     std::vector<Suite> s(4);
-    s[3].name = "handles"; s[3].n = 2; s[3].run = run_handles;
-    s[3].bound = "several handles alive at once: two C handles and two C++ wrapper objects with identical arguments on a world with random models, 48 queries in an uneven interleaving, seeds 1 and 7, each stream compared with its own native twin; one file name rewritten between two creations";
+    s[3].name = "handles"; s[3].n = 3; s[3].run = run_handles;
+    s[3].bound = "several handles alive at once: two C handles and two C++ wrapper objects with identical arguments on a world with random models, 48 queries in an uneven interleaving, seeds 1 and 7, each stream compared with its own native twin; one file name rewritten between two creations; 2-D entry points of both wrappers on a world without a cross section (the refusal must come through)";
     s[2].name = "filenames"; s[2].n = 1; s[2].run = run_filenames;
     s[2].bound = "9 file names that differ by leading / trailing / inner blanks, tab, newline, dot, case: each holds its own uniform temperature; C interface and C++ wrapper must read the named file like the native World does";
     s[1].name = "tsan"; s[1].n = 1; s[1].run = [th](uint64_t i, Ctx &c) { run_tsan(th, i, c); }; s[1].watchdog_s = 900;
